@@ -104,6 +104,14 @@ fn gen_form(rng: &mut Rng, literals_with_parens: bool, defined: &mut Vec<String>
         8 => ((*rng.pick(&["(define)", "(if)", "(lambda)", "(let ((x)) x)"])).to_string(), "failing-syntax"),
         9 => (format!("(if (< {} 5) 'small 'big)", rng.range(0, 9)), "expression"),
         10 => ("(display \"shown\")".to_string(), "display"),
+        11 if rng.chance(1, 5) => {
+            // a very long line: longer than the terminal layer's and the pipe's buffers
+            let n = *rng.pick(&[1000usize, 4095, 4096, 9000, 70000]);
+            let filler: String = (0..n).map(|i| (b'a' + (i % 19) as u8) as char).collect();
+            let name = format!("v{}", defined.len());
+            defined.push(name.clone());
+            (format!("(define {} (quote ({} {})))", name, filler, rng.range(0, 9)), "long-line")
+        }
         11 => (format!("((lambda (x) (display x) (newline) (* x 2)) {})", rng.range(1, 9)), "display"),
         // literals that contain parentheses and semicolons
         12 => ("(display \"(\")".to_string(), "paren-in-string"),
@@ -235,14 +243,14 @@ fn banner_and_farewell(hash_seed: u64) -> Result<(String, String), String> {
     static CAL: std::sync::OnceLock<Result<(String, String), String>> = std::sync::OnceLock::new();
     CAL.get_or_init(|| {
         let mut sess = Session::start(std::path::Path::new("/"), hash_seed).map_err(|e| format!("cannot start the ruschm binary: {}", e))?;
-        let banner = match sess.settle(Duration::from_secs(20)) {
+        let banner = match sess.settle(Duration::from_secs(90)) {
             Ok((o, _)) => String::from_utf8_lossy(&o).to_string(),
             Err(e) => {
                 let _ = sess.finish(Duration::from_secs(5));
                 return Err(format!("cannot observe an empty session: {:?}", e));
             }
         };
-        let (o, _, _, timed_out) = sess.finish(Duration::from_secs(20));
+        let (o, _, _, timed_out) = sess.finish(Duration::from_secs(90));
         if timed_out {
             return Err("the REPL does not exit at end of input in an empty session".into());
         }
@@ -320,7 +328,7 @@ fn execute_f(case: Value) -> RunResult {
         let mut done_subs = 0usize;
         let mut violation: Option<Violation> = None;
         // banner
-        match sess.settle(Duration::from_secs(20)) {
+        match sess.settle(Duration::from_secs(90)) {
             Ok((o, e)) => {
                 cum_out.push_str(&String::from_utf8_lossy(&o));
                 cum_err.push_str(&String::from_utf8_lossy(&e));
@@ -353,7 +361,7 @@ fn execute_f(case: Value) -> RunResult {
                     break;
                 }
                 sent += 1;
-                let (o, e) = match sess.settle(Duration::from_secs(20)) {
+                let (o, e) = match sess.settle(Duration::from_secs(90)) {
                     Ok(x) => x,
                     Err(SyncError::ProcUnreadable(m)) => {
                         res.invalid = Some(format!("cannot observe the child: {}", m));
@@ -419,7 +427,7 @@ fn execute_f(case: Value) -> RunResult {
             }
         }
         // EOF: the rest of the output, then the farewell
-        let (o, e, code, timed_out) = sess.finish(Duration::from_secs(20));
+        let (o, e, code, timed_out) = sess.finish(Duration::from_secs(90));
         cum_out.push_str(&String::from_utf8_lossy(&o));
         cum_err.push_str(&String::from_utf8_lossy(&e));
         if violation.is_none() {
